@@ -176,3 +176,138 @@ Example group_example :
                     DObj true [([109], DSc (SUInt 5)); ([121], DSc (SStr [49]))]]) [121]
   = (true, Some (DObj false [([49], DArr [DObj false [([109], DSc (SUInt 2))]; DObj false [([109], DSc (SUInt 5))]])])).
 Proof. reflexivity. Qed.
+
+(* ---- with unique keys the rebuilt record is the record with the key erased ---- *)
+Lemma m_put_fresh : forall k f acc, ~ In k (map fst acc) -> m_put k f acc = acc ++ [(k, f None)].
+Proof.
+  induction acc as [|[k' x] r IH]; intros H; [reflexivity|].
+  cbn [m_put]. destruct (str_eqb k k') eqn:E.
+  - apply str_eqb_eq in E. subst. exfalso. apply H. left. reflexivity.
+  - cbn [app]. f_equal. apply IH. intros Hin. apply H. right. exact Hin.
+Qed.
+
+Definition keep_member (k : str) (kv : str * doc) : bool :=
+  negb (str_eqb k (fst kv)) && d_not_undef (snd kv).
+
+Lemma sub_first_spec : forall k m acc seen,
+    NoDup (map fst m) ->
+    (forall x, In x (map fst m) -> ~ In x (map fst acc)) ->
+    (seen = true -> ~ In k (map fst m)) ->
+    d_sub_object_first k m acc seen = acc ++ d_copy_members (filter (keep_member k) m).
+Proof.
+  intros k m. induction m as [|[k' x] r IH]; intros acc seen Hnd Hdis Hseen.
+  - cbn. rewrite app_nil_r. reflexivity.
+  - cbn [map fst] in Hnd. inversion Hnd as [|? ? Hk' Hr]; subst.
+    cbn [d_sub_object_first filter]. unfold keep_member at 1. cbn [fst snd].
+    destruct (negb seen && str_eqb k k') eqn:E.
+    + apply andb_true_iff in E as [E1 E2]. rewrite E2. cbn [negb andb].
+      apply str_eqb_eq in E2. subst k'. apply IH; [exact Hr| |intros _; exact Hk'].
+      intros y Hy. apply Hdis. right. exact Hy.
+    + assert (Ek : str_eqb k k' = false).
+      { destruct (str_eqb k k') eqn:Ek; [|reflexivity]. destruct seen; [|discriminate].
+        apply str_eqb_eq in Ek. subst. exfalso. apply (Hseen eq_refl). left. reflexivity. }
+      rewrite Ek. cbn [negb andb]. unfold d_not_undef.
+      assert (Hs : seen = true -> ~ In k (map fst r)).
+      { intros Hst Hin. apply (Hseen Hst). right. exact Hin. }
+      destruct (d_is_undef x) eqn:Eu; cbn [negb].
+      * apply IH; [exact Hr| |exact Hs]. intros y Hy. apply Hdis. right. exact Hy.
+      * rewrite m_put_fresh by (apply Hdis; left; reflexivity).
+        rewrite IH; [| exact Hr | | exact Hs].
+        -- unfold d_copy_members. cbn [map fst snd]. rewrite <- app_assoc. reflexivity.
+        -- intros y Hy. rewrite map_app. cbn [map fst]. intros Hin. apply in_app_or in Hin as [Hin|[Hin|[]]].
+           ++ apply (Hdis y); [right; exact Hy|exact Hin].
+           ++ subst. contradiction.
+Qed.
+
+Theorem rec_sub_is_erase_key : forall k r,
+    NoDup (map fst (d_members r)) -> rec_sub k r = erase_key k (d_members r).
+Proof.
+  intros k r Hnd. unfold rec_sub, erase_key.
+  rewrite (sub_first_spec k (d_members r) [] false Hnd); [reflexivity| |discriminate].
+  intros x _ [].
+Qed.
+
+(* C18 in its declarative form: with unique member keys in every record the
+   result of GroupBy is partition_by_key *)
+Lemma combine_map_r : forall A B C (f : B -> C) (l1 : list A) (l2 : list B),
+    combine l1 (map f l2) = map (fun p => (fst p, f (snd p))) (combine l1 l2).
+Proof.
+  induction l1 as [|a l1 IH]; intros [|b l2]; try reflexivity. cbn. f_equal. apply IH.
+Qed.
+
+Lemma map_fst_combine : forall A B (l1 : list A) (l2 : list B),
+    length l1 = length l2 -> map fst (combine l1 l2) = l1.
+Proof.
+  induction l1 as [|a l1 IH]; intros [|b l2] H; try discriminate; [reflexivity|].
+  cbn. f_equal. apply IH. injection H as H. exact H.
+Qed.
+
+Theorem group_by_is_partition_by_key : forall k recs,
+    Forall (fun r => NoDup (map fst (d_members r))) recs ->
+    forall g, partition_by_key recs k = Some g ->
+    d_group_by (DArr recs) k = (true, Some g).
+Proof.
+  intros k recs Hu g Hp. unfold partition_by_key in Hp.
+  destruct recs as [|e r] eqn:Er; [discriminate|]. rewrite <- Er in *.
+  destruct (all_some (map (record_name k) recs)) as [names|] eqn:Hn; [|discriminate].
+  injection Hp as Hp. subst g.
+  rewrite (group_by_is_partition k recs names); [|rewrite Er; discriminate|exact Hn].
+  f_equal. f_equal. f_equal. unfold part.
+  assert (Hlen : length names = length recs).
+  { rewrite (all_some_length _ _ _ Hn), map_length. reflexivity. }
+  rewrite map_fst_combine by (rewrite map_length; exact Hlen).
+  apply map_ext. intros nm. f_equal. f_equal.
+  rewrite combine_map_r.
+  assert (Hall : Forall (fun p => rec_sub k (snd p) = erase_key k (d_members (snd p))) (combine names recs)).
+  { apply Forall_forall. intros [n0 r0] Hin. apply in_combine_r in Hin.
+    rewrite Forall_forall in Hu. apply rec_sub_is_erase_key. apply Hu. exact Hin. }
+  clear Hlen Hn. induction (combine names recs) as [|[n0 r0] t IH]; [reflexivity|].
+  inversion Hall as [|? ? H0 Ht]; subst. cbn [map filter fst snd].
+  destruct (str_eqb nm n0); cbn [map]; [|apply IH; exact Ht].
+  unfold mk at 1. cbn [snd fst] in *. rewrite H0. f_equal. apply IH. exact Ht.
+Qed.
+
+(* ---- every record lands in exactly one group ---- *)
+Lemma list_sum_cons : forall a l, list_sum (a :: l) = (a + list_sum l)%nat.
+Proof. reflexivity. Qed.
+Lemma indicator_sum : forall (L : list str) n, NoDup L -> In n L ->
+    list_sum (map (fun nm => if str_eqb nm n then 1 else 0)%nat L) = 1%nat.
+Proof.
+  induction L as [|x L IH]; intros n Hnd Hin; [contradiction|].
+  inversion Hnd as [|? ? Hx HL]; subst. cbn [map]; rewrite ?list_sum_cons.
+  destruct (str_eqb x n) eqn:E.
+  - apply str_eqb_eq in E. subst x.
+    assert (Hz : list_sum (map (fun nm => if str_eqb nm n then 1 else 0)%nat L) = 0%nat).
+    { clear IH Hin HL Hnd. induction L as [|y L IHL]; [reflexivity|]. cbn [map]; rewrite ?list_sum_cons.
+      destruct (str_eqb y n) eqn:Ey.
+      - apply str_eqb_eq in Ey. subst. exfalso. apply Hx. left. reflexivity.
+      - apply IHL. intros H. apply Hx. right. exact H. }
+    rewrite Hz. reflexivity.
+  - destruct Hin as [Hin|Hin]; [subst; rewrite str_eqb_refl in E; discriminate|].
+    rewrite (IH n HL Hin). reflexivity.
+Qed.
+
+Lemma group_sizes_sum : forall (L : list str) (t : list (str * members)),
+    NoDup L -> (forall nr, In nr t -> In (fst nr) L) ->
+    list_sum (map (fun nm => length (filter (fun nr => str_eqb nm (fst nr)) t)) L) = length t.
+Proof.
+  intros L t Hnd. induction t as [|[n s] t IH]; intros Hcov.
+  - cbn [filter length]. clear Hcov Hnd. induction L as [|x L IHL]; [reflexivity|]. cbn [map]. rewrite list_sum_cons, IHL. reflexivity.
+  - assert (Hsplit : forall L0,
+        list_sum (map (fun nm => length (filter (fun nr : str * members => str_eqb nm (fst nr)) ((n, s) :: t))) L0)
+        = (list_sum (map (fun nm => if str_eqb nm n then 1 else 0)%nat L0)
+           + list_sum (map (fun nm => length (filter (fun nr : str * members => str_eqb nm (fst nr)) t)) L0))%nat).
+    { induction L0 as [|x L0 IHL0]; [reflexivity|]. cbn [map]. rewrite !list_sum_cons, IHL0. cbn [filter fst].
+      destruct (str_eqb x n); cbn [length]; lia. }
+    rewrite Hsplit, IH by (intros nr H; apply Hcov; right; exact H).
+    rewrite (indicator_sum L n Hnd) by (apply (Hcov (n, s)); left; reflexivity). reflexivity.
+Qed.
+
+Theorem each_record_in_exactly_one_group : forall t,
+    list_sum (map (fun g => length (d_items (snd g))) (part t)) = length t.
+Proof.
+  intros t. unfold part. rewrite map_map. cbn [snd d_items].
+  rewrite <- (group_sizes_sum (names_in_order (map fst t)) t (names_nodup _)).
+  - apply f_equal. apply map_ext. intros nm. rewrite map_length. reflexivity.
+  - intros nr Hin. apply mem_In. rewrite names_mem. apply mem_In. apply in_map. exact Hin.
+Qed.
